@@ -164,9 +164,23 @@ where
         let shutdown_clone = shutdown.clone();
         let main_app_thread = thread::spawn(move || {
             for stream in socket.incoming() {
+                #[cfg(humphrey_verif)]
+                crate::verif::point(
+                    "Accept_Return",
+                    stream
+                        .as_ref()
+                        .ok()
+                        .and_then(|s| s.peer_addr().ok())
+                        .map_or(-1, |a| a.port() as i64),
+                    0,
+                );
                 if shutdown_clone.load(Ordering::SeqCst) {
+                    #[cfg(humphrey_verif)]
+                    crate::verif::point("Flag_Read", 1, 0);
                     break;
                 }
+                #[cfg(humphrey_verif)]
+                crate::verif::point("Flag_Read", 0, 0);
 
                 match stream {
                     Ok(mut stream) => {
@@ -204,6 +218,8 @@ where
                                     cloned_timeout,
                                 )
                             });
+                            #[cfg(humphrey_verif)]
+                            crate::verif::point("Dispatch", 0, 0);
                         } else {
                             self.monitor.send(
                                 Event::new(EventType::ConnectionDenied)
@@ -216,14 +232,24 @@ where
                         .send(Event::new(EventType::ConnectionError).with_info(e.to_string())),
                 }
             }
+            #[cfg(humphrey_verif)]
+            crate::verif::point("Loop_Exit", 0, 0);
             self.thread_pool.stop();
+            #[cfg(humphrey_verif)]
+            crate::verif::point("Pool_Stop", 0, 0);
         });
 
         if let Some(s) = self.shutdown {
             // We wait for the shutdown signal, then wake up the main app thread with a new connection
             let _ = s.recv();
+            #[cfg(humphrey_verif)]
+            crate::verif::point("Sig_Recv", 0, 0);
             shutdown.store(true, Ordering::SeqCst);
+            #[cfg(humphrey_verif)]
+            crate::verif::point("Flag_Set", 0, 0);
             let _ = TcpStream::connect(unspecified_socket_to_loopback(addr));
+            #[cfg(humphrey_verif)]
+            crate::verif::point("Wake_Connect", 0, 0);
         };
 
         let _ = main_app_thread.join();
